@@ -8,7 +8,8 @@
 (***************************************************************************)
 EXTENDS Attrs, TLC, Json
 
-CONSTANTS Plain, Links          \* sets of node ids (strings)
+CONSTANTS Plain, Links,         \* sets of node ids (strings)
+          ROPlain               \* ordinary nodes of a class with a read-only property `_bar`
 
 VARIABLES alive, tgt, own, parent, children, zlast
 vars == <<alive, tgt, own, parent, children, zlast>>
@@ -16,13 +17,14 @@ View == <<alive, tgt, own, parent, children>>
 
 Node == Plain \cup Links
 Keys == {"foo", "_bar", "name"}     \* an ordinary, an underscore-prefixed and a class-defined attribute name
-Vals == {"1", "2"}
-KwSets == {<<>>, << <<"foo", "1">> >>, << <<"_bar", "2">>, <<"foo", "2">> >>}
+Vals == {"1", "fn"}      \* "fn": a value that is callable (a function stored as an attribute)
+KwSets == {<<>>, << <<"foo", "1">> >>, << <<"_bar", "fn">>, <<"foo", "fn">> >>}
 Empty == [x \in {} |-> "1"]
 
 Init == /\ alive = Plain
         /\ tgt = [n \in Node |-> Nil]
-        /\ own = [n \in Node |-> IF n \in Plain THEN [x \in {"name"} |-> n] ELSE Empty]
+        /\ own = [n \in Node |-> IF n \in ROPlain THEN [x \in {"name", "_bar"} |-> IF x = "name" THEN n ELSE "ro"]
+                                ELSE IF n \in Plain THEN [x \in {"name"} |-> n] ELSE Empty]
         /\ parent = [n \in Node |-> Nil]
         /\ children = [n \in Node |-> <<>>]
         /\ zlast = [act |-> "init"]
@@ -34,14 +36,20 @@ Obs(act, n, a1, a2, exc, al, tg, ow, pa, ch) ==
 
 NewLink == \E l \in Links \ alive, t \in alive, pp \in alive \cup {Nil}, kws \in KwSets:
    LET tg == [tgt EXCEPT ![l] = t]
-       ow == SetAll(own, tg, l, kws)
+       ok == AcceptedKws(own, tg, l, kws)
+       ow == SetAll(own, tg, l, ok)
        st == IdealSP(parent, children, l, pp) IN
-   /\ alive' = alive \cup {l} /\ tgt' = tg /\ own' = ow /\ parent' = st.par /\ children' = st.ch
-   /\ zlast' = Obs("newlink", l, <<t, pp>>, kws, Nil, alive', tg, ow, st.par, st.ch)
+   IF ok = kws
+   THEN /\ alive' = alive \cup {l} /\ tgt' = tg /\ own' = ow /\ parent' = st.par /\ children' = st.ch
+        /\ zlast' = Obs("newlink", l, <<t, pp>>, kws, Nil, alive', tg, ow, st.par, st.ch)
+   ELSE \* the target refused a keyword: the constructor raises, the link never comes to life; earlier keywords were already written
+        /\ own' = ow /\ UNCHANGED <<alive, tgt, parent, children>>
+        /\ zlast' = Obs("newlink", l, <<t, pp>>, kws, AttrErr, alive, tgt, ow, parent, children)
 SetAttr == \E n \in alive, key \in Keys, v \in Vals:
-   LET ow == Set(own, tgt, n, key, v) IN
+   LET refused == Refuses(own, tgt, n, key)
+       ow == IF refused THEN own ELSE Set(own, tgt, n, key, v) IN
    /\ own' = ow /\ UNCHANGED <<alive, tgt, parent, children>>
-   /\ zlast' = Obs("setattr", n, <<key, v>>, <<>>, Nil, alive, tgt, ow, parent, children)
+   /\ zlast' = Obs("setattr", n, <<key, v>>, <<>>, IF refused THEN AttrErr ELSE Nil, alive, tgt, ow, parent, children)
 SetParent == \E n \in alive, v \in alive \cup {Nil}:
    LET r == RefuseSP(parent, n, v, TRUE)
        st == IF r = Nil THEN IdealSP(parent, children, n, v) ELSE [par |-> parent, ch |-> children] IN
@@ -64,7 +72,7 @@ Thm_Indep == [][zlast'.act \in {"sp", "sc"} =>
                                   /\ ~\E x \in SetOf(zlast'.a1): x # Nil /\ (parent[x] = m))
                                  => (parent'[m] = parent[m] /\ children'[m] = children[m])]_vars
 \* a write through a link (or its constructor keywords) is readable on the target, and a write on the target through the link
-Thm_Write == [][zlast'.act = "setattr" =>
+Thm_Write == [][(zlast'.act = "setattr" /\ zlast'.exc = Nil) =>
                  \A m \in alive': Final(tgt', m) = Final(tgt', zlast'.n) => Get(own', tgt', m, zlast'.a1[1]) = zlast'.a1[2]]_vars
 
 Emit == PrintT(ToJson([pre |-> [alive |-> alive, tgt |-> [x \in alive |-> tgt[x]], own |-> [x \in alive |-> own[x]],
